@@ -20,20 +20,29 @@ FINALS = ["", ":r?", ":r+", ":r*"]
 USEGS = ["a", "ab", "b", "axb", "a.b", ""]
 
 
-def patterns(maxlen):
+# a second, shallower enumeration over a wider alphabet: literals that differ only in case, literals made of
+# regular-expression metacharacters, non-ASCII, percent and digits - each with a path segment that a regex reading of
+# the literal (or a case-insensitive one) would accept
+W_PSEGS = ["a", "A", "a+", "a*b", "a|b", "(a)", "a$", "^a", "[ab]", "a?", "a{2}", "\\d", "\u00e9", "a-b", "%41", "1", ":p"]
+W_USEGS = ["a", "A", "aa", "ab", "b", "a+", "a*b", "a|b", "(a)", "a$", "^a", "[ab]", "a?", "a{2}", "\\d", "7", "\u00e9", "e", "a-b", "%41", "1", ""]
+
+
+def patterns(maxlen, psegs=None):
+    psegs = PSEGS if psegs is None else psegs
     out = []
     for fin in FINALS:
         for n in range(0, (maxlen if not fin else maxlen - 1) + 1):
-            for segs in itertools.product(PSEGS, repeat=n):
+            for segs in itertools.product(psegs, repeat=n):
                 s = list(segs) + ([fin] if fin else [])
                 out.append("/" + "/".join(s))
     return out
 
 
-def paths(maxlen):
+def paths(maxlen, usegs=None):
+    usegs = USEGS if usegs is None else usegs
     out = []
     for n in range(0, maxlen + 1):
-        for segs in itertools.product(USEGS, repeat=n):
+        for segs in itertools.product(usegs, repeat=n):
             p = "/" + "/".join(segs)
             out.append(p)
             if n:
@@ -115,6 +124,10 @@ def features(pattern):
             f.add(":name" + (s[-1] if s[-1] in "?+*" else ""))
         elif "." in s:
             f.add("literal with '.'")
+        elif any(c in "+*|()$^[]?{}\\" for c in s):
+            f.add("literal with regex metacharacters")
+        elif s and not s.isascii():
+            f.add("non-ASCII literal")
         elif s:
             f.add("literal")
     return ", ".join(sorted(f)) or "/"
@@ -145,12 +158,19 @@ def work_init(tier):
     from mpgameserver.http_server import Router, Route
     _ROUTER_CLS, _ROUTE = Router, Route
     _PATHS = paths(4 if tier == "quick" else 5)
+    global _WPATHS
+    _WPATHS = paths(2 if tier == "quick" else 3, W_USEGS)
 
 
 def work(pats):
     counts = core.Counter()
     viols = {}
     nontrivial = 0
+    wide = False
+    if pats and pats[0] == "wide":
+        wide = True
+        pats = pats[1:]
+    the_paths = _WPATHS if wide else _PATHS
     for pattern in pats:
         router = _ROUTER_CLS()
         try:
@@ -161,7 +181,7 @@ def work(pats):
             continue
         names = [s[1:].rstrip("?+*") for s in pattern.split("/") if s.startswith(":")]
         dup_names = len(set(names)) != len(names)
-        for path in _PATHS:
+        for path in the_paths:
             verdict, binds = ref_match(pattern, path)
             try:
                 res = router.getRoute("GET", path)
@@ -192,7 +212,7 @@ def work(pats):
                                "pattern %r path %r bound %r, expected %r" % (pattern, path, res[1], want))
             if bad:
                 viols.setdefault((bad[0], bad[1]), [0, {"pattern": pattern, "path": path}, bad[2]])[0] += 1
-    return len(pats) * len(_PATHS), dict(counts), viols, nontrivial
+    return len(pats) * len(the_paths), dict(counts), viols, nontrivial
 
 
 class _Req(object):
@@ -283,6 +303,8 @@ def run(tier, seed):
         k = seed % len(pats)
         pats = pats[k:] + pats[:k]
     chunks = [pats[i::64] for i in range(64)]
+    wpats = patterns(2 if tier == "quick" else 3, W_PSEGS)
+    chunks += [["wide"] + wpats[i::32] for i in range(32)]
     results = core.pmap("checks.c16", "work", chunks, initargs=(tier,))
     total = 0
     classes = core.Counter()
@@ -313,8 +335,9 @@ def run(tier, seed):
         "distinct_nontrivial": nontrivial,
         "rule": "all %d patterns (<=4 segments over %r, optional final %r) x all %d paths (<=%d segments over %r, +/- trailing slash); "
                 "non-trivial = (pattern, path) pairs where the documented rule says MATCH and bindings were compared; "
+                "plus %d patterns (<=%d segments over the wide alphabet %r) x %d paths over %r; "
                 "paths containing an empty segment are UNSPECIFIED for the verdict (only the no-empty-:name clause is checked)" % (
-                    len(pats), PSEGS, FINALS[1:], len(_PATHS), 4 if tier == "quick" else 5, USEGS),
+                    len(pats), PSEGS, FINALS[1:], len(_PATHS), 4 if tier == "quick" else 5, USEGS, len(wpats), 2 if tier == "quick" else 3, W_PSEGS, len(_WPATHS), W_USEGS),
         "verdict_classes": dict(classes),
         "dispatch_requests": extra.get("dispatch_requests", 0),
         "exhaustive": True,
